@@ -1,6 +1,7 @@
 package checks
 
 import (
+	"encoding/json"
 	"fmt"
 	"math"
 	"strings"
@@ -42,12 +43,71 @@ func c13Laws() []*c13Law {
 		{name: "replay tostream with setpath", src: `[(reduce (tostream | select(length == 2)) as [$p, $l] (null; setpath($p; $l))), .]`, domain: func(v any) bool { return !hasEmptyContainer(v) }},
 		{name: "replay tostream with setpath (empty containers are leaves)", src: `[(reduce (tostream | select(length == 2)) as [$p, $l] (null; setpath($p; $l))), .]`, domain: any_},
 		{name: "tostream|fromstream (inputs form)", src: `[[fromstream(tostream)], [.]]`, domain: any_},
+		// the same laws with paths and events that went through JSON text (their indices are then json.Numbers, as are all
+		// numbers the command reads)
+		{name: "fromstream of decoded events", src: `[fromstream([tostream] | tojson | fromjson | .[]), .]`, domain: func(v any) bool { return !univ.HasNaN(v) && !hasInf(v) && validDeep(v) }},
+		{name: "setpath/getpath over decoded paths", src: `. as $v | [[([paths] | tojson | fromjson | .[]) as $p | (setpath($p; "X") | getpath($p)), (setpath($p; getpath($p)))], [paths | "X", $v]]`, domain: func(v any) bool { return container(v) && validDeep(v) }},
+		{name: "replay decoded events with setpath", src: `[(reduce ([tostream | select(length == 2)] | tojson | fromjson | .[]) as [$p, $l] (null; setpath($p; $l))), .]`, domain: func(v any) bool { return !univ.HasNaN(v) && !hasInf(v) && validDeep(v) && !hasEmptyContainer(v) }},
+		{name: "getpath over decoded paths", src: `[[([paths] | tojson | fromjson | .[]) as $p | getpath($p)], [paths as $p | getpath($p)]]`, domain: validDeep},
+		{name: "delpaths of a decoded path", src: `[[([paths] | tojson | fromjson | .[]) as $p | delpaths([$p])], [paths as $p | delpaths([$p])]]`, domain: validDeep},
+		// "return their input" as the language itself judges it
+		{name: "tostring|tonumber == .", src: `[((tostring | tonumber) == .), true]`, domain: finite},
+		{name: "tojson|fromjson == .", src: `[((tojson | fromjson) == .), true]`, domain: func(v any) bool { return !univ.HasNaN(v) && !hasInf(v) && validDeep(v) }},
+		{name: "fromstream(tostream) == .", src: `[(fromstream(tostream) == .), true]`, domain: func(v any) bool { return !univ.HasNaN(v) }},
 		{name: "truncate_stream inverse", src: `[[1 | truncate_stream([[0],1],[[1,0],2],[[1,0]],[[1]])], [[[0],2],[[0]]]]`, domain: func(v any) bool { return v == nil }},
 	}
 	for _, l := range laws {
 		l.code = MustCompile(l.src)
 	}
 	return laws
+}
+
+// c13Equal is value equality in which a double is equal to the number it converts from: the text of a double beyond
+// 2^53 is its shortest round-trip digits padded with zeros (C10), an integer literal that denotes another integer but the
+// same double, so "returns its input" can only mean the same double there (the language's own == is checked next to it).
+func c13Equal(a, b any) bool {
+	switch x := a.(type) {
+	case []any:
+		y, ok := b.([]any)
+		if !ok || len(x) != len(y) {
+			return false
+		}
+		for i := range x {
+			if !c13Equal(x[i], y[i]) {
+				return false
+			}
+		}
+		return true
+	case map[string]any:
+		y, ok := b.(map[string]any)
+		if !ok || len(x) != len(y) {
+			return false
+		}
+		for k, v := range x {
+			w, has := y[k]
+			if !has || !c13Equal(v, w) {
+				return false
+			}
+		}
+		return true
+	}
+	isDouble := func(v any) bool {
+		switch v := v.(type) {
+		case float64:
+			return true
+		case json.Number:
+			return strings.ContainsAny(string(v), ".eE")
+		}
+		return false
+	}
+	if isDouble(a) != isDouble(b) {
+		na, oka := univ.NumOf(a)
+		nb, okb := univ.NumOf(b)
+		if oka && okb && !na.IsNaN() && !nb.IsNaN() && math.Abs(na.Float()) >= 1<<53 {
+			return na.Float() == nb.Float()
+		}
+	}
+	return univ.Equal(a, b)
 }
 
 func hasInf(v any) bool {
@@ -122,6 +182,11 @@ func c13Universe(thorough bool) []any {
 	U = append(U, J(`{"":1,"a b":2,"é":3,"日本":4,"😀":5,"a\"b":6,"a\\b":7,"a\nb":8,"\u0000":9}`), J(`{"a":{"":{"b":[]}}}`), J(`[[],{},[[]],[{}],{"a":[]},{"a":{}}]`), J(`[[[[[1]]]]]`), J(`{"a":[{"b":[{"c":null}]}]}`),
 		J(`[null,false,true,0,"",[],{}]`), J(`{"k":{"k":{"k":{}}}}`), J(`[1,[2,[3,[4,[]]]]]`), []any{}, map[string]any{}, J(`[[]]`), J(`{"a":[]}`), J(`[{}]`), J(`"leaf"`), J(`[0,[1,{"a":[2,{"b":3}]}],4]`),
 		J(`{"key":1,"value":2}`), J(`{"name":"x","Name":"y","k":null,"v":false}`), J(`{"a":null,"b":false}`))
+	// doubles beyond the 64-bit integers whose shortest digits are not their exact value: their text is an integer
+	// literal that reads back as a big integer
+	for _, f := range []float64{1.2345678901234567e20, 9223372036854775808, 18446744073709551616, 3.3e19, -1.2345678901234567e20, 9.99e20, 1e21, 1.7976931348623157e308, 9007199254740993, 1e19, -9223372036854775808, 4.611686018427388e18} {
+		U = append(U, f, []any{f}, map[string]any{"a": f})
+	}
 	for _, s := range c12Alphabet {
 		if utf8.ValidString(s) {
 			U = append(U, s, s+s, "a"+s+"b", map[string]any{s: s})
@@ -195,7 +260,7 @@ func c13Check(code *gojq.Code, in any, vars ...any) string {
 	if !ok || len(pair) != 2 {
 		return "malformed law result"
 	}
-	if !univ.Equal(pair[0], pair[1]) {
+	if !c13Equal(pair[0], pair[1]) {
 		return fmt.Sprintf("lhs = %s, rhs = %s", head(univ.Repr(pair[0]), 300), head(univ.Repr(pair[1]), 300))
 	}
 	return ""
